@@ -2,7 +2,7 @@
     the implementation by the harness (1 = holds); the C18 oracle is computed here from the
     templates, the rewrite rules and the feature columns with the models of Model/Rewriter.v and
     Model/Template.v. *)
-From Vib Require Import Model.Base Model.Text Model.Rewriter Model.Template Model.Float.
+From Vib Require Import Model.Base Model.Text Model.Rewriter Model.Template Model.Float Model.LexCsv Model.DefText Model.DictBuild Model.DictGen.
 Local Open Scope N_scope.
 
 Record numdata := {
@@ -12,6 +12,12 @@ Record numdata := {
   nd_unk : list (N * N * Z);           (* unk.def rows as emitted *)
   nd_matrix_lines : list (N * N * Z);  (* matrix.def lines after the header: right, left, cost *)
   nd_dims : N * N                      (* matrix.def header *)
+}.
+
+Record gendata := {
+  gd_chardef : list N; gd_lex : list N; gd_unk : list N; gd_user : list N;
+  gd_labels : list N; gd_dims : N * N;
+  gd_out_lex : list N; gd_out_unk : list N; gd_out_matrix : list N; gd_out_user : list N
 }.
 
 Record trncase := {
@@ -25,7 +31,9 @@ Record trncase := {
   tn_views : list (list (list str * N * N * N) * list (list str) * list (list str));
   (* numbers of the in-memory model after the user lexicon was read: the freshly merged model
      (weights as binary64 bit patterns) and the numeric columns of the emitted files *)
-  tn_num : option numdata
+  tn_num : option numdata;
+  (* the definition files, the user-entry labels and merged dimensions (hooks), and the four emitted files, as bytes *)
+  tn_gen : option gendata
 }.
 
 Definition has_prefix (p : str) (f : str * N) : bool := starts_with p (fst f).
@@ -42,11 +50,6 @@ Definition P14 : str := [99;49;52;95]. Definition P15 : str := [99;49;53;95]. De
 Definition nd_scale (nd : numdata) : f64 :=
   f64_scale (map (fun s => f64_of_bits (fst (fst s))) (nd_sets nd) ++ map (fun m => f64_of_bits (snd m)) (nd_matrix nd)).
 Definition nd_cost (sc : f64) (bits : Z) : Z := f64_cost sc (f64_of_bits bits).
-Fixpoint insert_rl (x : N * N * Z) (l : list (N * N * Z)) : list (N * N * Z) :=
-  match l with
-  | [] => [x]
-  | y :: t => if ((fst (fst x) <? fst (fst y)) || ((fst (fst x) =? fst (fst y)) && (snd (fst x) <=? snd (fst y))))%N then x :: l else y :: insert_rl x t
-  end.
 Definition rlz_eqb (a b : N * N * Z) : bool := ((fst (fst a) =? fst (fst b)) && (snd (fst a) =? snd (fst b)))%N && (snd a =? snd b)%Z.
 Definition c14_costs_ok (c : trncase) : bool :=
   match tn_num c with
@@ -61,12 +64,24 @@ Definition c14_costs_ok (c : trncase) : bool :=
       && forallb (fun r => (fst (fst r) <? snd (nd_dims nd)) && (snd (fst r) <? fst (nd_dims nd)))%N (nd_lex nd ++ nd_unk nd)
       && forallb (fun r => (fst (fst r) <? fst (nd_dims nd)) && (snd (fst r) <? snd (nd_dims nd)))%N (nd_matrix_lines nd)
   end.
+(** correspondence of C14: the model of write_dictionary (Model/DictGen.v) produces the four emitted files byte for byte *)
+Definition c14_gen_ok (c : trncase) : bool :=
+  match tn_num c, tn_gen c with
+  | Some nd, Some g =>
+      match write_dictionary (gd_chardef g) (gd_lex g) (gd_unk g) (gd_user g)
+              {| mg_sets := nd_sets nd; mg_matrix := nd_matrix nd; mg_dims := gd_dims g; mg_labels := gd_labels g |} with
+      | Ok f => list_eqb N.eqb (gf_lex f) (gd_out_lex g) && list_eqb N.eqb (gf_unk f) (gd_out_unk g)
+                && list_eqb N.eqb (gf_matrix f) (gd_out_matrix g) && list_eqb N.eqb (gf_user f) (gd_out_user g)
+      | _ => false
+      end
+  | _, _ => true
+  end.
 Definition c14_oracle (c : trncase) : bool := flags_ok P14 c && c14_costs_ok c. Definition c15_oracle := flags_ok P15. Definition c16_oracle := flags_ok P16.
 (** known finding K7: the trained model has no bigram weight row at all and the first generation
     panics inside rucrf's RawModel::merge *)
 Definition K7FLAG : str := [107;55;95;110;111;95;98;105;103;114;97;109;95;119;101;105;103;104;116;115].
 Definition k7_class (c : trncase) : bool := existsb (fun f => str_eqb (fst f) K7FLAG && (snd f =? 1)) (tn_flags c).
-Definition c14_report := report (fun _ => true) c14_oracle (fun c => k7_class c && negb (c14_oracle c)) (fun c => Nat.leb 5 (flags_count P14 c)).
+Definition c14_report := report c14_gen_ok c14_oracle (fun c => k7_class c && negb (c14_oracle c)) (fun c => Nat.leb 5 (flags_count P14 c)).
 Definition c15_report := report (fun _ => true) c15_oracle (fun c => k7_class c && negb (c15_oracle c)) (fun c => Nat.leb 4 (flags_count P15 c)).
 (** known finding K3 (shared with C07): a bigram template without literal text can expand to '*',
     the marker bigram.left/right use for "no feature" *)
